@@ -2,10 +2,16 @@
    numeric position, for digit strings of every length; and, at parser level for ParseUIntVal /
    ParseExpiresVal / ParseCLenVal, that the value reported is the decimal value of exactly the
    digits of the field reported (any offset, leading white space, digit strings of every length).
-   PARTIAL in one respect: for the other numeric positions (CSeq number, status, port, contact
-   expires / q) that the accumulator is fed exactly the digits of the reported field is checked by
-   the correspondence run and the number-chunked oracle. *)
-From Sipsp Require Import Harness IP4 Numbers FLineSpec UIntSpec.
+   The Contact q parameter (QSpec.v): on a value written digits [ "." digits ] the number stored is
+   exactly the value in thousandths when it lies between 0 and 1 with at most three decimals; otherwise
+   q keeps its previous value and the parameter is flagged (too long / bad value / number too big).
+   At parser level (NameAddrParam.v): in "<" uri ">;q=" value and "<" uri ">;expires=" digits the
+   parameter dispatch receives exactly the value text, so q is the value in thousandths or flagged, and
+   expires is the value of the digits saturated at 2^32-1 (C10_q_in_a_value, C10_expires_in_a_value).
+   PARTIAL in one respect: for the CSeq number and the URI port that the accumulator is fed exactly
+   the digits of the reported field is checked by the correspondence run and the number-chunked
+   oracle (status: C08). *)
+From Sipsp Require Import Harness IP4 Numbers FLineSpec UIntSpec QSpec NameAddrSpec NameAddrParam.
 Theorem C10_uint_header_value_is_its_digits : forall p sp ds d x,
   Forall (fun b => is_sp b = true) sp -> all_digits ds -> ds <> [] -> is_sp d = false ->
   let i := nnat (length p) in
@@ -42,3 +48,38 @@ Theorem C10_port_exact_or_too_big : forall ds l, all_digits ds -> ul_portno l <=
   (dec_from (ul_portno l) ds <= 65535 -> p = dec_from (ul_portno l) ds) /\
   (65535 < dec_from (ul_portno l) ds -> 65535 < p).
 Proof. exact port_acc_exact. Qed.
+
+(* ---- the q parameter ------------------------------------------------------------------------------------------------------------------- *)
+Theorem C10_q_with_decimals : forall (us ds : list byte) s, all_digits us -> all_digits ds -> (length ds <= 3)%nat ->
+  set_q (us ++ 46 :: ds) s =
+    if MaxU64 <? dec us then q_flag ENumTooBig false s
+    else if (1 <? dec us) || ((dec us =? 1) && (0 <? dec ds)) then q_flag EValBad false s
+    else s <| fb_q := thousandths us ds |>.
+Proof. exact set_q_dot. Qed.
+Theorem C10_q_without_decimals : forall us s, all_digits us ->
+  set_q us s = if MaxU64 <? dec us then q_flag ENumTooBig false s else if 1 <? dec us then q_flag EValBad false s else s <| fb_q := dec us * 1000 |>.
+Proof. exact set_q_nodot. Qed.
+Theorem C10_q_more_than_three_decimals_flagged : forall (us ds : list byte) s, all_digits us -> (4 <= length ds)%nat ->
+  set_q (us ++ 46 :: ds) s = q_flag EValTooLong true s.
+Proof. exact set_q_too_long. Qed.
+Theorem C10_q_never_above_one : forall (us ds : list byte) s, all_digits us -> all_digits ds -> (length ds <= 3)%nat ->
+  fb_q (set_q (us ++ 46 :: ds) s) = fb_q s \/ fb_q (set_q (us ++ 46 :: ds) s) <= 1000.
+Proof. exact set_q_range. Qed.
+Theorem C10_q_in_a_value : forall h (uri : list byte) u0 (us ds : list byte) x tail,
+  Forall uchar uri -> all_digits (u0 :: us) -> all_digits ds -> (length ds <= 3)%nat -> is_sp x = false ->
+  exists o s', parse_nameaddr h (60 :: uri ++ 62 :: 59 :: 113 :: 61 :: ((u0 :: us) ++ 46 :: ds) ++ CR :: LF :: x :: tail) 0 pfrom0 = Done o EOk s' /\
+    fb_uri s' = mkpf 1 (nnat (length uri)) /\
+    if (MaxU64 <? dec (u0 :: us)) || (1 <? dec (u0 :: us)) || ((dec (u0 :: us) =? 1) && (0 <? dec ds))
+    then fb_q s' = 0 /\ fb_perr s' <> EOk
+    else fb_q s' = thousandths (u0 :: us) ds /\ fb_perr s' = EOk.
+Proof. exact spec_uri_q. Qed.
+Theorem C10_expires_in_a_value : forall h (uri : list byte) d0 (ds : list byte) x tail,
+  Forall uchar uri -> all_digits (d0 :: ds) -> is_sp x = false ->
+  exists o s', parse_nameaddr h (60 :: uri ++ 62 :: 59 :: 101 :: 120 :: 112 :: 105 :: 114 :: 101 :: 115 :: 61 :: (d0 :: ds) ++ CR :: LF :: x :: tail) 0 pfrom0 = Done o EOk s' /\
+    fb_hasexp s' = true /\ fb_expires s' = N.min (dec (d0 :: ds)) MaxU32 /\ fb_perr s' = EOk.
+Proof. exact spec_uri_expires. Qed.
+(* q=0.75 is 750 thousandths; q=1.5 is flagged and leaves q alone *)
+Example C10_q_example : fb_q (set_q [48;46;55;53] pfrom0) = 750 /\ fb_q (set_q [49;46;53] pfrom0) = 0 /\ fb_perr (set_q [49;46;53] pfrom0) = EValBad.
+Proof. vm_compute. repeat split; reflexivity. Qed.
+Print Assumptions C10_q_with_decimals.
+Print Assumptions C10_q_in_a_value.
